@@ -60,6 +60,106 @@ impl Sub for BitFlip {
     }
 }
 
+// ------------------------------------------------------------------ repeated generation of one seed
+
+/// keygen(seed) three times - twice in this thread, once in a fresh thread - must give the same
+/// bytes. Used for seeds selected because key generation works unusually hard on them (many
+/// rejected candidates): retry budgets, fallbacks and the like live on that path.
+#[derive(Clone, Debug, Serialize, Deserialize)]
+pub struct RepeatCase {
+    n: usize,
+    seed: Hex,
+    /// rejected candidates before the first acceptable one, as counted by the pre-screen (0 = not screened)
+    #[serde(default)]
+    rejected_candidates: u32,
+}
+
+pub struct Repeat;
+
+impl Sub for Repeat {
+    type Case = RepeatCase;
+    fn name(&self) -> &'static str {
+        "keygen_repeat"
+    }
+    fn max_shrink_iters(&self) -> u32 {
+        4
+    }
+    fn batch(&self) -> usize {
+        1
+    }
+    fn strategy(&self, _env: &Env) -> BoxedStrategy<RepeatCase> {
+        (prop_oneof![3 => Just(512usize), 1 => Just(1024usize)], crate::gen::seed_strategy()).prop_map(|(n, s)| RepeatCase { n, seed: seed_hex(&s), rejected_candidates: 0 }).boxed()
+    }
+    fn check(&self, c: &RepeatCase, st: &mut Stats) -> Result<(), Fail> {
+        let seed = seed_from(&c.seed).ok_or_else(|| Fail::new("harness:bad-replay", "seed must be 32 bytes"))?;
+        let n = c.n;
+        let first = api::keygen(n, seed);
+        let (sk0, pk0) = (first.0.to_bytes(), first.1.to_bytes());
+        let second = api::keygen(n, seed);
+        ensure!(second.0.to_bytes() == sk0 && second.1.to_bytes() == pk0, "keygen:not-deterministic", "two consecutive generations of the Falcon-{} key of seed {} in one thread differ ({} rejected candidates in the pre-screen)", n, hex(&seed), c.rejected_candidates);
+        let third = std::thread::spawn(move || {
+            let (sk, pk) = api::keygen(n, seed);
+            (sk.to_bytes(), pk.to_bytes())
+        })
+        .join()
+        .map_err(|_| Fail::new("keygen:panic-in-thread", "key generation panicked in a spawned thread"))?;
+        ensure!(third.0 == sk0 && third.1 == pk0, "keygen:not-deterministic", "generating the Falcon-{} key of seed {} in a fresh thread gives different bytes ({} rejected candidates in the pre-screen)", n, hex(&seed), c.rejected_candidates);
+        st.count(&format!("repeated_generations_{}", n));
+        if c.rejected_candidates >= 50 {
+            st.count("repeated_generations_of_slow_seeds(>=50_rejected_candidates)");
+        }
+        st.range("rejected_candidates_of_screened_seeds", c.rejected_candidates as f64);
+        st.nontrivial(&(n, seed, "repeat"));
+        st.sample(if c.rejected_candidates > 0 { "repeat_slow_seed" } else { "repeat" }, || json!({"n": n, "seed": hex(&seed), "rejected_candidates": c.rejected_candidates}));
+        Ok(())
+    }
+}
+
+/// Number of candidates (f, g) the key generator's loop rejects with its cheap tests (range,
+/// invertibility of f, Gram-Schmidt norm) before the first one that passes them; replayed through
+/// the hooks. Only selects inputs.
+pub fn rejected_candidates(n: usize, seed: [u8; 32], cap: u32) -> u32 {
+    use falcon_rust::verif_hooks::keygen_parts as kp;
+    use rand::SeedableRng;
+    let lim = (1i64 << (refimpl::params::params(n).fg_bits - 1)) - 1;
+    let mut rng = rand::rngs::StdRng::from_seed(seed);
+    for k in 0..cap {
+        let f = kp::gen_poly(n, &mut rng);
+        let g = kp::gen_poly(n, &mut rng);
+        if f.iter().chain(g.iter()).any(|x| (*x as i64).abs() > lim) {
+            continue;
+        }
+        if refimpl::zq::evaluate_at_roots(&crate::util::to_i64(&f)).iter().any(|&x| x == 0) {
+            continue;
+        }
+        if kp::gram_schmidt_norm_squared(&f, &g) > 1.3689 * 12289.0 {
+            continue;
+        }
+        return k;
+    }
+    cap
+}
+
+/// `fvh hunt-c15 <n> <first> <count> <min>`: seeds with at least <min> rejected candidates.
+pub fn hunt(n: usize, first: u64, count: u64, min: u32) {
+    let next = std::sync::atomic::AtomicU64::new(0);
+    std::thread::scope(|sc| {
+        for _ in 0..16 {
+            sc.spawn(|| loop {
+                let i = next.fetch_add(1, std::sync::atomic::Ordering::Relaxed);
+                if i >= count {
+                    break;
+                }
+                let seed = crate::util::seed32(0xC15_0000_0000 + first + i);
+                let k = rejected_candidates(n, seed, 400);
+                if k >= min {
+                    println!("{} {} {}", n, hex(&seed), k);
+                }
+            });
+        }
+    });
+}
+
 // ------------------------------------------------------------------ histories
 
 #[derive(Clone, Debug, Serialize, Deserialize)]
@@ -214,7 +314,7 @@ impl Sub for History {
 }
 
 const META: Meta = Meta {
-    rule: "(1) bit flips: every one of the 256 seed bits of at least one Falcon-512 seed (enumerated) and generated (seed, bit) pairs for both variants: keygen(seed xor e_i) must differ from keygen(seed) as bytes; (2) histories of 5-9 steps over two random seeds per variant plus a degenerate seed (all-zero / all-0xFF), interpreted against a model map seed -> bytes of the first generation: Keygen (same thread), KeygenInThread (fresh thread), KeygenConcurrently (two threads at once), KeygenInChild (the harness re-executes itself), Sign (interleaved signing with a live key); every later generation of a seed must reproduce the first bytes. Non-trivial = a bit flip, or a history with a re-generation in another thread/process or after an interleaved sign; distinct by hash.",
+    rule: "(1) bit flips: every one of the 256 seed bits of at least one Falcon-512 seed (enumerated) and generated (seed, bit) pairs for both variants: keygen(seed xor e_i) must differ from keygen(seed) as bytes; (2) histories of 5-9 steps over two random seeds per variant plus a degenerate seed (all-zero / all-0xFF), interpreted against a model map seed -> bytes of the first generation: Keygen (same thread), KeygenInThread (fresh thread), KeygenConcurrently (two threads at once), KeygenInChild (the harness re-executes itself), Sign (interleaved signing with a live key); every later generation of a seed must reproduce the first bytes; (3) repeated generation (twice in one thread, once in a fresh thread) of generated seeds and of the committed slow seeds - seeds on which the key generator rejects 60-200 candidates before accepting one, found by replaying its candidate loop through the hooks (`fvh hunt-c15`). Non-trivial = a bit flip, or a history with a re-generation in another thread/process or after an interleaved sign; distinct by hash.",
     assumptions: &[
         "'depends on nothing but the seed' is tested against the influences the harness can vary: thread, process, call history, prior signing; not the machine",
         "schedules are exercised by real threads, not enumerated (key generation has no shared mutable state)",
@@ -223,7 +323,7 @@ const META: Meta = Meta {
 
 pub fn run(env: &Env, replay: Option<&Path>) -> i32 {
     let mut report = Report::new();
-    let subs: [&dyn DynSub; 2] = [&BitFlip, &History];
+    let subs: [&dyn DynSub; 3] = [&BitFlip, &History, &Repeat];
     if let Some(p) = replay {
         if let Err(e) = replay_file(env, &subs, p, &mut report) {
             eprintln!("harness: {}", e);
@@ -252,6 +352,7 @@ pub fn run(env: &Env, replay: Option<&Path>) -> i32 {
     flips.sort_by_key(|f| mix(f.bit as u64 * 7 + f.n as u64));
     drive_enumerated(env, &BitFlip, flips.into_iter(), &mut report);
     drive(env, &History, env.tier.pick(16, 128), &mut report);
+    drive(env, &Repeat, env.tier.pick(16, 400), &mut report);
     let covered: Vec<usize> = (0..256).filter(|b| report.stats.counters.contains_key(&format!("bit_position_covered_{:03}", b))).collect();
     report.extra.insert("seed_bit_positions_covered".into(), json!(covered.len()));
     report.stats.counters.retain(|k, _| !k.starts_with("bit_position_covered_"));
